@@ -547,9 +547,38 @@ func unpackNodes(node *yaml.Node) []*yaml.Node {
 			continue
 		}
 		if isMerge {
+			if part.ShortTag() == mergeTag {
+				continue
+			}
+			// The value of a merge key that is not an alias: an inline mapping or a list of mappings / aliases.
+			// Merge what it holds and carry on with the keys that follow.
+			isMerge = false
+			switch part.Kind { // nolint: exhaustive
+			case yaml.MappingNode:
+				nodes = append(nodes, mergedKeys(part, node)...)
+			case yaml.SequenceNode:
+				for _, item := range part.Content {
+					switch {
+					case item.Alias != nil:
+						nodes = append(nodes, resolveMapAlias(item, node).Content...)
+					case item.Kind == yaml.MappingNode:
+						nodes = append(nodes, mergedKeys(item, node)...)
+					}
+				}
+			}
 			continue
 		}
 		nodes = append(nodes, part)
+	}
+	return nodes
+}
+
+// mergedKeys returns key & value nodes of a mapping merged into parent, skipping keys parent sets itself.
+func mergedKeys(src, parent *yaml.Node) (nodes []*yaml.Node) {
+	for i := 0; i+1 < len(src.Content); i += 2 {
+		if !hasKey(parent, src.Content[i].Value) {
+			nodes = append(nodes, src.Content[i], src.Content[i+1])
+		}
 	}
 	return nodes
 }
